@@ -2,7 +2,7 @@
     every search response and the shape of the state with what the real
     queryLog did. *)
 From Coq Require Export Uint63.
-From AGH Require Export Base.Run Model.QLogFile Model.QLog Model.QLogCodec.
+From AGH Require Export Base.Run Model.QLogFile Model.QLog Model.QLogCodec Model.QLogServe.
 Local Open Scope Z_scope.
 
 (** Byte strings are printed packed, seven bytes to a primitive integer
@@ -39,7 +39,12 @@ Inductive hstep :=
   | HSearch (q : request) (code : Z) (ids : list N) (oldest : Z)
   (* queryLog.search called directly with explicit searchParams (small scan
      windows cannot be requested through HTTP) *)
-  | HSearchP (p : params) (code : Z) (ids : list N) (oldest : Z).
+  | HSearchP (p : params) (code : Z) (ids : list N) (oldest : Z)
+  (* PUT /control/querylog/config/update changed anonymize_client_ip *)
+  | HAnon (b : bool)
+  (* GET /control/querylog with the client column: rows = (id, index of the
+     "client" text in the case's table of address texts) *)
+  | HSearchC (q : request) (code : Z) (rows : list (N * N)) (oldest : Z).
 
 (** One file line through the real codec.  [src]: the entry json.Marshal was
     given (None for hand-written lines); [good_*]: the strings of the line Go's
@@ -50,7 +55,9 @@ Inductive hstep :=
 Record qobs := { qo_v : bytes; qo_a : bytes; qo_strict : bool; qo_quick : bool; qo_match : bool }.
 
 Inductive case :=
-  | CHist (me bf : Z) (c0 : config) (steps : list hstep)
+  (* [texts]: the address texts of the case; [masks]: (address, masked
+     address) as indices into [texts] (the anonymiser oracle) *)
+  | CHist (me bf : Z) (c0 : config) (texts : list bytes) (masks : list (N * N)) (steps : list hstep)
   | CCodec (src : option centry) (line : bytes)
            (good_time good_ip good_addr good_b64 : list bytes)
            (panicked : bool) (dec : centry) (qh ip cid : bytes)
@@ -81,14 +88,36 @@ Definition searchp_ok (me bf : Z) (s : state) (p : params) (code : Z) (ids : lis
 
 Definition P := Build_params.
 
-Fixpoint replay (me bf : Z) (s : state) (steps : list hstep) : bool :=
+Definition text_at (texts : list bytes) (i : N) : bytes := nth (N.to_nat i) texts [].
+
+Definition tbl_of (texts : list bytes) (masks : list (N * N)) : mask_tbl :=
+  map (fun x : N * N => (text_at texts (fst x), text_at texts (snd x))) masks.
+
+Definition row_eqb (a b : N * bytes) : bool := N.eqb (fst a) (fst b) && eqb_bytes (snd a) (snd b).
+
+(** The served response (Model/QLogServe.v) against ids and client column. *)
+Definition resp_ok (texts : list bytes) (r : response) (code : Z) (rows : list (N * N)) (oldest : Z) : bool :=
+  match r with
+  | ROk rs o => (code =? 0) && eqb_list row_eqb rs (map (fun x : N * N => (fst x, text_at texts (snd x))) rows) && (o =? oldest)
+  | RBad => code =? 1
+  | RPanic => code =? 2
+  end.
+
+(** The state is threaded through [qstep] / [serve] of Model/QLogServe.v: the
+    state after a served request is the one [serve] returns. *)
+Fixpoint replay (me bf : Z) (texts : list bytes) (t : mask_tbl) (s : sstate) (steps : list hstep) : bool :=
   match steps with
   | [] => true
-  | HOp o :: r => replay me bf (step s o) r
+  | HOp o :: r => replay me bf texts t (qstep me bf t s (SOp o)) r
+  | HAnon b :: r => replay me bf texts t (qstep me bf t s (SAnon b)) r
   | HState nb nc nr :: r =>
-      (lenZ (buf s) =? nb) && (opt_len (cur s) =? nc) && (opt_len (rot s) =? nr) && replay me bf s r
-  | HSearch q code ids oldest :: r => search_ok me bf s q code ids oldest && replay me bf s r
-  | HSearchP p code ids oldest :: r => searchp_ok me bf s p code ids oldest && replay me bf s r
+      (lenZ (buf (st s)) =? nb) && (opt_len (cur (st s)) =? nc) && (opt_len (rot (st s)) =? nr) && replay me bf texts t s r
+  | HSearch q code ids oldest :: r =>
+      search_ok me bf (st s) q code ids oldest && replay me bf texts t (qstep me bf t s (SServe q)) r
+  | HSearchC q code rows oldest :: r =>
+      let (s', resp) := serve me bf t s q in
+      resp_ok texts resp code rows oldest && replay me bf texts t s' r
+  | HSearchP p code ids oldest :: r => searchp_ok me bf (st s) p code ids oldest && replay me bf texts t s r
   end.
 
 (** *** codec cases *)
@@ -153,8 +182,9 @@ Definition codec_ok (src : option centry) (line : bytes) (bt bi ba bb : list byt
 
 Definition case_ok (c : case) : bool :=
   match c with
-  | CHist me bf c0 steps =>
-      (me =? max_entry_size) && (bf =? buffer_size) && replay me bf (init c0) steps
+  | CHist me bf c0 texts masks steps =>
+      (me =? max_entry_size) && (bf =? buffer_size) &&
+      replay me bf texts (tbl_of texts masks) (sinit c0) steps
   | CCodec src line bt bi ba bb panicked dec qh ip cid cl qs =>
       codec_ok src line bt bi ba bb panicked dec qh ip cid cl qs
   end.
@@ -163,34 +193,43 @@ Definition mismatches := Base.Run.mismatches case_ok.
 
 (** For replay files: per search, what the model answers (code, ids, oldest)
     and whether it agrees. *)
-Fixpoint explain_steps (me bf : Z) (s : state) (steps : list hstep) : list (Z * list N * Z * bool) :=
+Fixpoint explain_steps (me bf : Z) (texts : list bytes) (t : mask_tbl) (s : sstate) (steps : list hstep) : list (Z * list N * Z * bool) :=
   match steps with
   | [] => []
-  | HOp o :: r => explain_steps me bf (step s o) r
+  | HOp o :: r => explain_steps me bf texts t (qstep me bf t s (SOp o)) r
+  | HAnon b :: r => explain_steps me bf texts t (qstep me bf t s (SAnon b)) r
   | HState nb nc nr :: r =>
-      if (lenZ (buf s) =? nb) && (opt_len (cur s) =? nc) && (opt_len (rot s) =? nr)
-      then explain_steps me bf s r
-      else (-1, [], lenZ (buf s) * 1000000 + (opt_len (cur s) + 1) * 1000 + (opt_len (rot s) + 1), false)
-           :: explain_steps me bf s r
+      if (lenZ (buf (st s)) =? nb) && (opt_len (cur (st s)) =? nc) && (opt_len (rot (st s)) =? nr)
+      then explain_steps me bf texts t s r
+      else (-1, [], lenZ (buf (st s)) * 1000000 + (opt_len (cur (st s)) + 1) * 1000 + (opt_len (rot (st s)) + 1), false)
+           :: explain_steps me bf texts t s r
   | HSearch q code ids oldest :: r =>
-      (match handle me bf s q with
+      (match handle me bf (st s) q with
        | Ok es o => (0, map e_id es, o)
        | BadRequest => (1, [], 0)
        | Panic => (2, [], 0)
-       end, search_ok me bf s q code ids oldest) :: explain_steps me bf s r
+       end, search_ok me bf (st s) q code ids oldest) :: explain_steps me bf texts t s r
+  | HSearchC q code rows oldest :: r =>
+      (* code 10 + x: a request compared with its client column; a row whose
+         client differs shows as agreement on ids but flag false *)
+      (match handle me bf (st s) q with
+       | Ok es o => (10, map e_id es, o)
+       | BadRequest => (11, [], 0)
+       | Panic => (12, [], 0)
+       end, resp_ok texts (snd (serve me bf t s q)) code rows oldest) :: explain_steps me bf texts t s r
   | HSearchP p code ids oldest :: r =>
-      (match search me bf s p with
+      (match search me bf (st s) p with
        | Ok es o => (0, map e_id es, o)
        | BadRequest => (1, [], 0)
        | Panic => (2, [], 0)
-       end, searchp_ok me bf s p code ids oldest) :: explain_steps me bf s r
+       end, searchp_ok me bf (st s) p code ids oldest) :: explain_steps me bf texts t s r
   end.
 
 (** For codec cases: (0, ids unused, 0, flag) rows: encode agrees, decode
     agrees (panic flag, entry), the three raw values agree, quick verdicts. *)
 Definition explain (c : case) :=
   match c with
-  | CHist me bf c0 steps => explain_steps me bf (init c0) steps
+  | CHist me bf c0 texts masks steps => explain_steps me bf texts (tbl_of texts masks) (sinit c0) steps
   | CCodec src line bt bi ba bb panicked dec qh ip cid cl qs =>
       let (p, d) := decode (mk_oracles bt bi ba bb) line in
       [(100, [], 0, match src with Some e => eqb_bytes (encode e) line | None => true end);
